@@ -15,7 +15,13 @@ def models():
   eq = rows_scene([3, 3, 3], connects=1, welds=1, hinges=2, hinge_limit=True, hinge_friction=True, jointeqs=1, chain=2)
   eq = eq.replace("</worldbody>", "</worldbody><actuator><motor joint='jh0'/><position joint='jh1' kp='5'/></actuator>")
   imp = pipeline.RICH_XML.replace('<option timestep="0.005"/>', '<option timestep="0.005" integrator="implicitfast"/>')
-  return {"rich": pipeline.RICH_XML, "rich_implicitfast": imp, "equalities": eq}
+  adh = """<mujoco><option timestep="0.005"/><worldbody><geom name="floor" type="plane" size="5 5 .1"/>
+    <body name="pad" pos="0 0 0.048"><joint name="z" type="slide" axis="0 0 1"/><joint name="y" type="hinge" axis="0 1 0"/>
+      <geom name="p1" type="sphere" size="0.05" pos="-0.1 0 0" mass="0.3" margin="0.01" gap="0.01"/><geom name="p2" type="sphere" size="0.05" pos="0.1 0 0" mass="0.3" margin="0.01" gap="0.01"/></body>
+    <body name="box" pos="1 0 0.099"><freejoint/><geom type="box" size="0.1 0.1 0.1" mass="1"/></body></worldbody>
+    <actuator><adhesion name="adh" body="pad" ctrlrange="0 1" gain="40"/><motor joint="z" gear="5"/><adhesion name="adh2" body="box" ctrlrange="0 1" gain="10"/></actuator>
+    <keyframe><key name="k0" qpos="0.02 0.1 0 0 0.3 1 0 0 0" ctrl="0.5 0 0.2"/></keyframe></mujoco>"""
+  return {"rich": pipeline.RICH_XML, "rich_implicitfast": imp, "equalities": eq, "adhesion": adh}
 
 
 def run(ctx: core.Ctx):
